@@ -46,6 +46,8 @@ use scylla_cql::value::MaybeUnset;
 use std::borrow::Cow;
 use std::collections::HashMap;
 
+mod conn;
+
 const MAX_LEN: usize = 1 << 25;
 
 // ------------------------------------------------------------------------------------------------
@@ -1150,6 +1152,9 @@ pub fn run(case: &str, ctx: &mut Ctx) -> String {
             _ => "bad-case".into(),
         };
     }
+    if !w.is_empty() && w[0] == "sess" {
+        return conn::run(case, ctx);
+    }
     if w.len() == 3 && w[0] == "decomp" {
         return match (comp_tok(w[1]), bytes_tok(w[2])) {
             (Some(Some(c)), Some(body)) => run_decomp(c, &body, ctx),
@@ -1582,6 +1587,8 @@ pub fn generate(rng: &mut Rng, tier: Tier, emit: &mut dyn FnMut(String)) {
         emit(format!("startup lz4 0 N {}", pairs.join(" ")));
     }
 
+    // (5a) connection-level glue: statement configuration -> frames of a real Connection (see c09/conn.rs)
+    conn::generate(rng, tier, emit);
     // (5b) frame::decompress on arbitrary bodies (declared sizes around the guards, truncated prefixes, garbage)
     gen_decomp(rng, scale, emit);
     // highly compressible request bodies: the real codecs closest to the decompress guards
